@@ -85,6 +85,15 @@ def asbuilt():
     return "\n".join(rows)
 
 
+def round10():
+    """the per-property notes of the extension round, written by the owners of the checks (tools/design_addenda/*.md)"""
+    import glob
+    out = []
+    for f in sorted(glob.glob(os.path.join(HERE, "tools", "design_addenda", "*.md"))):
+        out.append(open(f, encoding="utf-8").read().strip())
+    return "\n\n".join(out) if out else "(no notes yet)"
+
+
 def main():
     p = os.path.join(HERE, "DESIGN.md")
     s = open(p, encoding="utf-8").read()
@@ -93,6 +102,7 @@ def main():
     blocks = {"FIXED": "%d defects repaired by `fix:` commits:\n\n%s" % (nf, fx),
               "KNOWN": "%d known findings (recorded, not repaired):\n\n%s" % (nk, kn),
               "ASBUILT": asbuilt(),
+              "ROUND10": round10(),
               "SEEDS": "%d seeded changes kept, %d caught by the quick tier as of the last verification:\n\n%s" % (ns, nc, sd)}
     for k, v in blocks.items():
         b, e = "<!-- BEGIN %s -->" % k, "<!-- END %s -->" % k
